@@ -725,7 +725,7 @@ func trackRun(e *Env) {
 			}
 		})
 	}
-	c = NewClient(ClientOpts{Nick: "me", Ident: "sim", Name: "Sim User", Flood: flood, Track: true})
+	c = NewClient(g.Knobs(ClientOpts{Nick: "me", Ident: "sim", Name: "Sim User", Flood: flood, Track: true}))
 	st := c.StateTracker()
 	discs := 0
 	c.HandleFunc(client.DISCONNECTED, func(*client.Conn, *client.Line) { discs++ })
